@@ -52,8 +52,24 @@ Fixpoint run_trace (c : config) (i : inst) (tr : list (event * obs)) (idx : Z) :
 Definition cfg_wfb (c : config) : bool :=
   forallb (fun p => 0 <=? p) (c_powers c) && (c_total c =? fold_right Z.add 0 (c_powers c)) &&
   (0 <? c_total c) && (c_total c <? 4611686018427387904).
+(* what a validated message guarantees about its justification (gpbft/validator.go: the justification of a CONVERGE or
+   PREPARE of round r is from round r-1, that of a COMMIT for a value from round r, DECIDE carries round 0, CONVERGE
+   never carries bottom) -- the hypothesis of the no-internal-error theorem, checked on every delivered message *)
+Definition wfmb (m : msg) : bool :=
+  match m_phase m with
+  | QUALITY => true
+  | CONVERGE => negb (is_zero (m_value m)) && match m_just m with Some j => j_round j =? m_round m - 1 | None => false end
+  | PREPARE => match m_just m with Some j => j_round j =? m_round m - 1 | None => true end
+  | COMMIT => is_zero (m_value m) || match m_just m with Some j => j_round j =? m_round m | None => false end
+  | DECIDE => m_round m =? 0
+  | _ => false
+  end.
+(* events after the start: deliveries of validated messages and alarms *)
+Definition ev_okb (e : event) : bool := match e with EvStart _ => false | EvDeliver _ m _ => wfmb m | EvAlarm _ _ => true end.
+Definition trace_shape_ok (tr : list (event * obs)) : bool :=
+  match tr with (EvStart _, _) :: rest => forallb (fun p => ev_okb (fst p)) rest | _ => false end.
 Definition trace_ok (c : config) (input : chain) (tr : list (event * obs)) : bool :=
-  cfg_wfb c && (run_trace c (new_instance input 0) tr 0 =? -1).
+  cfg_wfb c && trace_shape_ok tr && (run_trace c (new_instance input 0) tr 0 =? -1).
 
 (* debugging aid: index of the first differing event together with what the model produced there *)
 Fixpoint run_trace_dbg (c : config) (i : inst) (tr : list (event * obs)) (idx : Z)
